@@ -702,14 +702,22 @@ class Engine:
 
         def check_inv(tag):
             for nm, ex in inv['inv'].items():
-                v = self.eval_spec(ex, env, self.ghost_env(env))
-                self.oblige('%s::loop%d.%s.%s' % (fq, ordn, nm, tag), self.as_z3_bool(v),
+                try:
+                    v = self.as_z3_bool(self.eval_spec(ex, env, self.ghost_env(env)))
+                except PyRaise as pr:
+                    v = False
+                    ex = '%s  (evaluation raised %s)' % (ex, pr.exc.cls)
+                self.oblige('%s::loop%d.%s.%s' % (fq, ordn, nm, tag), v,
                             kind='invariant', detail='%s [%s]' % (ex, tag))
 
         def assume_inv():
-            for nm, ex in inv['inv'].items():
-                v = self.eval_spec(ex, env, self.ghost_env(env))
-                self.assume(self.as_z3_bool(v))
+            self.spec_assume_defined = True
+            try:
+                for nm, ex in inv['inv'].items():
+                    v = self.eval_spec(ex, env, self.ghost_env(env))
+                    self.assume(self.as_z3_bool(v))
+            finally:
+                self.spec_assume_defined = False
 
         # for-loop bookkeeping: index variable over the iterable
         if kind == 'for':
@@ -1860,14 +1868,37 @@ def _term_syms_raw(t, acc):
             stack.append(x.body())
 
 
+def _dict_base(sym):
+    """'dict!14['k']', 'has_dict!14['k']', 'val_dict!14' -> 'dict!14' (symbols that describe the contents of an abstract dict)"""
+    for pre in ('has_', 'val_'):
+        if sym.startswith(pre):
+            sym = sym[len(pre):]
+            break
+    return sym.split('[', 1)[0]
+
+
 def _engine_cut(self, cut, idx, env):
     c = self.cur_contract
     key = c.key
     genv = self.ghost_env(env)
     # 1. established
     for nm, ex in cut.get('assume', {}).items():
-        v = self.eval_spec(ex, env, genv)
-        self.oblige('%s::cut_%s.%s.established' % (key, cut.get('name', idx), nm), self.as_z3_bool(v), kind='invariant',
+        try:
+            v = self.as_z3_bool(self.eval_spec(ex, env, genv))
+        except PyRaise as pr:
+            # the clause is not even defined on this state (e.g. a variable it names is missing from a mapping)
+            v = False
+            ex = '%s  (evaluation raised %s)' % (ex, pr.exc.cls)
+        self.oblige('%s::cut_%s.%s.established' % (key, cut.get('name', idx), nm), v, kind='invariant',
+                    detail='%s [at cut %s]' % (ex, cut.get('name', idx)))
+    for nm, ex in cut.get('check', {}).items():
+        # obligations only (clauses about the ghost trace or about values that are abstracted next: never re-assumed)
+        try:
+            v = self.as_z3_bool(self.eval_spec(ex, env, genv))
+        except PyRaise as pr:
+            v = False
+            ex = '%s  (evaluation raised %s)' % (ex, pr.exc.cls)
+        self.oblige('%s::cut_%s.%s' % (key, cut.get('name', idx), nm), v, kind='invariant',
                     detail='%s [at cut %s]' % (ex, cut.get('name', idx)))
     # 2. abstraction
     from .contracts import abstract_value
@@ -1886,8 +1917,28 @@ def _engine_cut(self, cut, idx, env):
         sq = self.eval_spec(gx, env, self.ghost_env(env))
         if isinstance(sq, VSeq) and sq.ghost is not None:
             self.havoc_seq_ghost(sq)
-    for nm, ex in cut.get('assume', {}).items():
-        self.assume(self.as_z3_bool(self.eval_spec(ex, env, self.ghost_env(env))))
+    self.spec_assume_defined = True
+    try:
+        for nm, ex in cut.get('assume', {}).items():
+            self.assume(self.as_z3_bool(self.eval_spec(ex, env, self.ghost_env(env))))
+    finally:
+        self.spec_assume_defined = False
+    for nm, ex in cut.get('cover', {}).items():
+        # reachability canary (vacuity guard): some path must reach this cut with the condition satisfiable
+        oid = '%s::cut_%s.cover.%s' % (key, cut.get('name', idx), nm)
+        ob = self.obligations.get(oid)
+        if ob is None:
+            ob = self.obligations[oid] = Obligation(oid, 'cover')
+            ob.status = 'undecided'
+            ob.detail = 'no path reaches cut %s with: %s (vacuity guard)' % (cut.get('name', idx), ex)
+        ob.paths += 1
+        if ob.status != 'discharged':
+            cv = self.as_z3_bool(self.eval_spec(ex, env, self.ghost_env(env)))
+            cv = z3.BoolVal(cv) if isinstance(cv, bool) else cv
+            if self.feasible(cv):
+                ob.status = 'discharged'
+                ob.detail = ex
+                ob.backends.add('z3')
     for nm, ex in cut.get('suppose', {}).items():
         # a pure assumption (not checked): recorded in the evidence
         self.assumptions_used.add('assumed at a cut of %s: %s' % (c.func.split('.')[-1], ex))
@@ -1944,7 +1995,7 @@ def _engine_cut(self, cut, idx, env):
     for f in self.pc:
         syms = set()
         _term_syms(f, syms)
-        dead = [s for s in syms if (('!' in s and s not in reach and not s.startswith('ref!'))
+        dead = [s for s in syms if (('!' in s and s not in reach and _dict_base(s) not in reach and not s.startswith('ref!'))
                                     or (_CUTNAME_RE.search(s) and s not in live_syms
                                         and not any(s in t for t in live_syms)))]
         if dead:
@@ -1954,7 +2005,7 @@ def _engine_cut(self, cut, idx, env):
     pcs = sorted(cn.nm(f.sexpr()) for f in self.pc)
     def _tf_dead(k):
         n = str(k[0])
-        return ('!' in n and n not in reach) or (_CUTNAME_RE.search(n) and n not in live_syms
+        return ('!' in n and n not in reach and _dict_base(n) not in reach) or (_CUTNAME_RE.search(n) and n not in live_syms
                                                  and not any(n in t for t in live_syms))
     self.tfacts = {k: v for k, v in self.tfacts.items() if not _tf_dead(k)}
     tf = sorted('%s=%s' % (cn.nm(repr(k)), v) for k, v in self.tfacts.items())
